@@ -121,10 +121,11 @@ func CleanScratch() {
 
 // EngineHandle is an opened storage engine with its cleanup
 type EngineHandle struct {
-	Name  string
-	KV    storage.KvStorage
-	Dir   string // badger only
-	close func()
+	TiKVGuard *guardedTiKVClient // TiKV engines: the hook point between the TiKV client and the mock cluster
+	Name      string
+	KV        storage.KvStorage
+	Dir       string // badger only
+	close     func()
 }
 
 // Close closes the engine and removes its files
@@ -165,7 +166,7 @@ func OpenEngine(name string, splitKeys ...[]byte) (*EngineHandle, error) {
 			sts = append(sts, st)
 		}
 		kv := itikv.NewKvStoreWithStorage(sts)
-		return &EngineHandle{Name: name, KV: kv, close: func() { _ = kv.Close() }}, nil
+		return &EngineHandle{Name: name, KV: kv, TiKVGuard: guard, close: func() { _ = kv.Close() }}, nil
 	case EngMemMetrics, EngBadgerMet, EngTiKVMet:
 		inner := map[string]string{EngMemMetrics: EngMem, EngBadgerMet: EngBadger, EngTiKVMet: EngTiKV}[name]
 		h, err := OpenEngine(inner, splitKeys...)
@@ -191,6 +192,16 @@ type guardedTiKVClient struct {
 	inner  tikv.Client
 	mu     sync.RWMutex
 	closed bool
+	// Hook, if set, may answer a request instead of the mock cluster (fault injection below the adapter)
+	hook atomic.Value // func(*tikvrpc.Request) *tikvrpc.Response
+}
+
+// SetHook installs (or, with nil, removes) the request hook
+func (g *guardedTiKVClient) SetHook(f func(*tikvrpc.Request) *tikvrpc.Response) {
+	if f == nil {
+		f = func(*tikvrpc.Request) *tikvrpc.Response { return nil }
+	}
+	g.hook.Store(f)
 }
 
 // SendRequest implements tikv.Client
@@ -199,6 +210,11 @@ func (g *guardedTiKVClient) SendRequest(ctx context.Context, addr string, req *t
 	defer g.mu.RUnlock()
 	if g.closed {
 		return nil, fmt.Errorf("mock cluster closed")
+	}
+	if h, ok := g.hook.Load().(func(*tikvrpc.Request) *tikvrpc.Response); ok {
+		if resp := h(req); resp != nil {
+			return resp, nil
+		}
 	}
 	return g.inner.SendRequest(ctx, addr, req, timeout)
 }
